@@ -48,6 +48,9 @@ pub struct Profile {
     /// element-level calls on text objects: put / insert / delete of scalars at a text index
     /// (concurrent puts make conflicted text elements)
     pub text_elem_ops: bool,
+    /// scripted contention motifs (two replicas hit the same register/element concurrently, then
+    /// merge, then one of them follows up) mixed into `World::step`
+    pub motifs: bool,
 }
 
 impl Profile {
@@ -68,6 +71,7 @@ impl Profile {
             bulk: true,
             extreme_indexes: false,
             text_elem_ops: false,
+            motifs: true,
         }
     }
     pub fn with_text_elem_ops() -> Profile {
@@ -375,19 +379,19 @@ pub fn random_edit<D: Transactable>(d: &mut D, rng: &mut Rng, gs: &mut GenState)
                 }
                 2 => {
                     kind = "put_seq";
-                    let i = rng.below(len);
+                    let i = hot_index(rng, len);
                     let v = gs.rand_scalar(rng);
                     desc = format!("put({}, {i}, {v:?})", oid(&obj));
                     r = d.put(&obj, i, v);
                 }
                 3 => {
                     kind = "delete_seq";
-                    let i = rng.below(len);
+                    let i = hot_index(rng, len);
                     desc = format!("delete({}, {i})", oid(&obj));
                     r = d.delete(&obj, i);
                 }
                 4 => {
-                    let i = rng.below(len);
+                    let i = hot_index(rng, len);
                     let has_counter = d
                         .get_all(&obj, i)
                         .map(|vs| vs.iter().any(|(v, _)| matches!(v, automerge::Value::Scalar(s) if matches!(s.as_ref(), ScalarValue::Counter(_)))))
@@ -435,7 +439,9 @@ pub fn random_edit<D: Transactable>(d: &mut D, rng: &mut Rng, gs: &mut GenState)
                     // overwrite one text element (concurrent overwrites conflict)
                     kind = "put_text_elem";
                     let b = GenState::boundaries(d, &obj);
-                    let i = b[rng.below(b.len().saturating_sub(1).max(1))].min(len.saturating_sub(1));
+                    // contention: most element-level calls go to the first few elements
+                    let span = if rng.chance(60) { b.len().saturating_sub(1).clamp(1, 3) } else { b.len().saturating_sub(1).max(1) };
+                    let i = b[rng.below(span)].min(len.saturating_sub(1));
                     let s = if rng.chance(70) { rng.pick(&GRAPHEMES).to_string() } else { gs.rand_text(rng, 2) };
                     desc = format!("put({}, {i}, {s:?}) [text element]", oid(&obj));
                     r = d.put(&obj, i, s.as_str());
@@ -450,7 +456,8 @@ pub fn random_edit<D: Transactable>(d: &mut D, rng: &mut Rng, gs: &mut GenState)
                 10 => {
                     kind = "delete_text_elem";
                     let b = GenState::boundaries(d, &obj);
-                    let i = b[rng.below(b.len().saturating_sub(1).max(1))].min(len.saturating_sub(1));
+                    let span = if rng.chance(60) { b.len().saturating_sub(1).clamp(1, 3) } else { b.len().saturating_sub(1).max(1) };
+                    let i = b[rng.below(span)].min(len.saturating_sub(1));
                     desc = format!("delete({}, {i}) [text element]", oid(&obj));
                     r = d.delete(&obj, i);
                 }
@@ -555,6 +562,15 @@ pub fn random_edit<D: Transactable>(d: &mut D, rng: &mut Rng, gs: &mut GenState)
         gs.errors_seen += 1;
     }
     Edit { kind, desc, ok, err: r.err().map(|e| e.to_string()), obj, obj_type: typ, intended_invalid: false }
+}
+
+/// contention: half of the element-level calls on a sequence go to its first three elements
+fn hot_index(rng: &mut Rng, len: usize) -> usize {
+    if rng.chance(50) {
+        rng.below(len.clamp(1, 3))
+    } else {
+        rng.below(len.max(1))
+    }
 }
 
 /// a (start, len) range on element boundaries (or arbitrary if misalignment is enabled)
@@ -800,9 +816,157 @@ impl World {
         }
     }
 
+    /// A scripted contention motif between two replicas that already share the target object:
+    /// both act on the same register / element without seeing each other, they merge, and one of
+    /// them follows up (increment, delete, overwrite) — the situations fixed random programs rarely
+    /// line up. Every call goes through the public API; errors are ignored.
+    pub fn motif(&mut self, rng: &mut Rng) {
+        let n = self.docs.len();
+        if n < 2 {
+            return;
+        }
+        let a = rng.below(n);
+        let b = (a + 1 + rng.below(n - 1)) % n;
+        // a shared object both replicas can see
+        let cands: Vec<(ObjId, ObjType)> = self.gs.objs.iter().filter(|(id, _)| self.docs[a].object_type(id).is_ok() && self.docs[b].object_type(id).is_ok()).cloned().collect();
+        let (obj, typ) = if cands.is_empty() || rng.chance(25) { (ROOT, ObjType::Map) } else { rng.pick(&cands).clone() };
+        let p = self.gs.profile.clone();
+        let v1 = self.gs.next_val() as i64;
+        let v2 = self.gs.next_val() as i64;
+        let kind = rng.below(8);
+        self.gs.note("motif");
+        self.logln(format!("motif {kind} between R{a} and R{b} on {}", oid(&obj)));
+        match typ {
+            ObjType::Map | ObjType::Table => {
+                let key = self.gs.key(rng);
+                match kind {
+                    0 | 1 if p.counters => {
+                        // concurrent counters on one key; merge; increment the conflicted register
+                        let _ = self.docs[a].put(&obj, key.as_str(), ScalarValue::counter(v1));
+                        let _ = self.docs[b].put(&obj, key.as_str(), ScalarValue::counter(v2));
+                        self.merge(a, b);
+                        let _ = self.docs[a].increment(&obj, key.as_str(), 3);
+                        if kind == 1 {
+                            self.merge(b, a);
+                            let _ = self.docs[b].increment(&obj, key.as_str(), 4);
+                        }
+                    }
+                    2 if p.counters => {
+                        // counter vs plain value, then increment while the conflict is visible
+                        let _ = self.docs[a].put(&obj, key.as_str(), ScalarValue::counter(v1));
+                        let _ = self.docs[b].put(&obj, key.as_str(), format!("s{v2}"));
+                        self.merge(a, b);
+                        let _ = self.docs[a].increment(&obj, key.as_str(), 2);
+                    }
+                    3 => {
+                        // put vs delete
+                        let _ = self.docs[a].put(&obj, key.as_str(), v1);
+                        self.merge(b, a);
+                        let _ = self.docs[a].put(&obj, key.as_str(), v2);
+                        let _ = self.docs[b].delete(&obj, key.as_str());
+                    }
+                    4 => {
+                        // object vs scalar on one key
+                        let t = if p.text { ObjType::Text } else { ObjType::Map };
+                        if let Ok(id) = self.docs[a].put_object(&obj, key.as_str(), t) {
+                            self.gs.objs.push((id, t));
+                        }
+                        let _ = self.docs[b].put(&obj, key.as_str(), v2);
+                    }
+                    _ => {
+                        // plain concurrent puts, then the loser's author deletes without having seen the winner
+                        let _ = self.docs[a].put(&obj, key.as_str(), v1);
+                        let _ = self.docs[b].put(&obj, key.as_str(), v2);
+                        self.commit(a);
+                        self.commit(b);
+                        let _ = self.docs[a].delete(&obj, key.as_str());
+                    }
+                }
+            }
+            ObjType::List | ObjType::Text => {
+                let la = self.docs[a].length(&obj);
+                let lb = self.docs[b].length(&obj);
+                let is_text = typ == ObjType::Text;
+                // an element both replicas have (the shared prefix is the common case)
+                let i = if la.min(lb) == 0 { 0 } else { rng.below(la.min(lb).min(3)) };
+                let aligned = |d: &AutoCommit, i: usize| -> usize {
+                    let bnd = GenState::boundaries(d, &obj);
+                    bnd.iter().copied().filter(|x| *x <= i).max().unwrap_or(0)
+                };
+                match kind {
+                    0 | 1 if la.min(lb) > 0 && (!is_text || p.text_elem_ops) => {
+                        // concurrent overwrites of one element; one author deletes its own value unseen
+                        let (ia, ib) = (aligned(&self.docs[a], i), aligned(&self.docs[b], i));
+                        if is_text {
+                            let _ = self.docs[a].put(&obj, ia, *rng.pick(&GRAPHEMES));
+                            let _ = self.docs[b].put(&obj, ib, *rng.pick(&GRAPHEMES));
+                        } else {
+                            let _ = self.docs[a].put(&obj, ia, v1);
+                            let _ = self.docs[b].put(&obj, ib, v2);
+                        }
+                        self.commit(a);
+                        self.commit(b);
+                        if kind == 0 {
+                            let _ = self.docs[b].delete(&obj, ib);
+                        } else {
+                            self.merge(a, b);
+                            let _ = self.docs[b].delete(&obj, ib);
+                        }
+                    }
+                    2 if !is_text && p.counters && la.min(lb) > 0 => {
+                        // concurrent counters on one element, merge, increment
+                        let _ = self.docs[a].put(&obj, i, ScalarValue::counter(v1));
+                        let _ = self.docs[b].put(&obj, i, ScalarValue::counter(v2));
+                        self.merge(a, b);
+                        let _ = self.docs[a].increment(&obj, i, 5);
+                    }
+                    3 if !is_text && p.counters && la.min(lb) > 0 => {
+                        // counter vs plain value on one element, then increment
+                        let _ = self.docs[a].put(&obj, i, ScalarValue::counter(v1));
+                        let _ = self.docs[b].put(&obj, i, format!("s{v2}"));
+                        self.merge(a, b);
+                        let _ = self.docs[a].increment(&obj, i, 2);
+                    }
+                    4 => {
+                        // concurrent inserts at one position
+                        let (ia, ib) = (aligned(&self.docs[a], i), aligned(&self.docs[b], i));
+                        if is_text {
+                            let _ = self.docs[a].splice_text(&obj, ia, 0, "A1");
+                            let _ = self.docs[b].splice_text(&obj, ib, 0, "B2");
+                        } else {
+                            let _ = self.docs[a].insert(&obj, ia.min(la), v1);
+                            let _ = self.docs[b].insert(&obj, ib.min(lb), v2);
+                        }
+                    }
+                    _ if la.min(lb) > 0 => {
+                        // delete vs overwrite / delete vs delete of one element
+                        let (ia, ib) = (aligned(&self.docs[a], i), aligned(&self.docs[b], i));
+                        let _ = self.docs[a].delete(&obj, ia);
+                        if rng.chance(50) {
+                            let _ = self.docs[b].delete(&obj, ib);
+                        } else if is_text {
+                            if p.text_elem_ops {
+                                let _ = self.docs[b].put(&obj, ib, "w");
+                            } else {
+                                let _ = self.docs[b].splice_text(&obj, ib, 0, "w");
+                            }
+                        } else {
+                            let _ = self.docs[b].put(&obj, ib, v2);
+                        }
+                    }
+                    _ => {}
+                }
+            }
+        }
+    }
+
     /// one random step: mostly edits, sometimes commit / merge
     pub fn step(&mut self, rng: &mut Rng) {
         let n = self.docs.len();
+        if self.gs.profile.motifs && n > 1 && rng.chance(5) {
+            self.motif(rng);
+            return;
+        }
         let r = rng.below(n);
         match rng.below(100) {
             0..=69 => {
